@@ -95,6 +95,9 @@ func c03Calls() []fsx.Op {
 		// files, a write by an ordinary user clears the setuid bit)
 		{K: "Mkdir", P: c03X, Perm: 0o1777}, {K: "MkdirAll", P: c03X + "/n1/n2", Perm: 0o1755},
 		{K: "OpenWriteClose", P: c03X, Flag: syscall.O_WRONLY | syscall.O_CREAT | syscall.O_EXCL, Perm: 0o4755}, {K: "OpenWriteClose", P: c03X, Flag: syscall.O_RDWR | syscall.O_CREAT, Perm: 0o3666},
+		// through the links of e1 into the other branch: the refusal, and its errno, is that of the kernel (MkdirAll on a
+		// link it cannot follow answers "exists", whatever stops it behind the link)
+		{K: "MkdirAll", P: c03E1 + "/lx", Perm: 0o755}, {K: "MkdirAll", P: c03E1 + "/ld/n1", Perm: 0o755}, {K: "MkdirAll", P: c03E1 + "/lx/n1", Perm: 0o755}, {K: "Stat", P: c03E1 + "/ld"}, {K: "ReadDir", P: c03E1 + "/ld"}, {K: "ReadFile", P: c03E1 + "/lx"},
 	}
 }
 
@@ -129,6 +132,11 @@ func (k *c03Run) build(cfg c03Cfg) bool {
 		case "f":
 			setup = append(setup, fsx.Op{K: "WriteFile", P: n.path, Data: "0123456789", Perm: 0o666})
 		}
+	}
+	if cfg.nodes[3].kind == "d" {
+		// two symbolic links in e1 leading across to the other branch: what is behind them may be out of the acting
+		// user's reach while the links themselves are not
+		setup = append(setup, fsx.Op{K: "Symlink", P: c03X, Q: c03E1 + "/lx"}, fsx.Op{K: "Symlink", P: c03D2, Q: c03E1 + "/ld"})
 	}
 	for _, n := range cfg.nodes {
 		if n.kind != "-" {
